@@ -175,32 +175,36 @@ theorem log2_table_sound (n : Nat) (h1 : 256 ≤ n) (h2 : n < 65536) :
     2 ^ log2Fp8 n ≤ n ^ 256 ∧ (n ≠ 2 ^ (bitLen n - 1) → n ^ 256 ≤ 2 ^ ceilLog2Fp8 n) :=
   log2_fp8_sound n h1 h2
 
--- ==================================================================== non-vacuity and recorded findings
+-- ==================================================================== non-vacuity and regression theorems
+-- (the `fixed = false` variants mirror the code before the `fix:` commits 77711bb, 26bd959, f6db5f8,
+--  44dc3ca, 413052e of /repo; they show that the hypotheses / corrected branches are needed)
 
 example : IsRoot (2 ^ 191 + 12345) 2 (sqrtRemRepr 64 true (2 ^ 191 + 12345)).1 :=
   (sqrt_rem_spec 64 (by decide) (by decide) _).1
 
-/-- FINDING (`nth_root` of zero): the `bits ≤ n ⇒ 1` shortcut as written returns 1 for the radicand 0 -/
+/-- REGRESSION (`nth_root` of zero): the `bits ≤ n ⇒ 1` shortcut as written returns 1 for the radicand 0 -/
 theorem nth_root_zero_asIs_counterexample :
     nthRootRepr 64 false 0 3 = .ok 1 ∧ ¬ IsRoot 0 3 1 ∧ nthRootRepr 64 true 0 3 = .ok 0 ∧
     cbrtRemRepr 64 false 0 = .error .negativeUBig := by
   refine ⟨rfl, by simp [IsRoot], rfl, rfl⟩
 
-/-- FINDING (`sqrt_rem_large`, `shift == WORD_BITS`): the remainder as written is shifted by
+/-- REGRESSION (`sqrt_rem_large`, `shift == WORD_BITS`): the remainder as written is shifted by
     `shift % WORD_BITS = 0` bits instead of one word: `s² + r ≠ n` for `n = 2^191 + 12345` -/
 theorem sqrt_rem_asIs_counterexample :
-    let n := 2 ^ 191 + 12345
-    let (s, r) := sqrtRemLarge 64 sqrtRemKernelFrontier false n
-    s * s + r ≠ n ∧ r = (sqrtRemLarge 64 sqrtRemKernelFrontier true n).2 * 2 ^ 64 := by
+    (sqrtRemLarge 64 sqrtRemKernelFrontier false (2 ^ 191 + 12345)).1 *
+        (sqrtRemLarge 64 sqrtRemKernelFrontier false (2 ^ 191 + 12345)).1 +
+      (sqrtRemLarge 64 sqrtRemKernelFrontier false (2 ^ 191 + 12345)).2 ≠ 2 ^ 191 + 12345 ∧
+    (sqrtRemLarge 64 sqrtRemKernelFrontier false (2 ^ 191 + 12345)).2 =
+      (sqrtRemLarge 64 sqrtRemKernelFrontier true (2 ^ 191 + 12345)).2 * 2 ^ 64 := by
   decide +kernel
 
-/-- FINDING (`CubicRoot for IBig`): as written every negative input panics with `RootNegative` -/
+/-- REGRESSION (`CubicRoot for IBig`): as written every negative input panics with `RootNegative` -/
 theorem ibig_cbrt_asIs_counterexample :
     cbrtInt 64 false (-8) = .error .rootNegative ∧ cbrtInt 64 true (-8) = .ok (-2) ∧
     nthRootInt 64 false (-8) 3 = .ok (-2) := by
   decide +kernel
 
-/-- FINDING (`ilog` of zero): as written only `log_dword` rejects a zero target; the power-of-two
+/-- REGRESSION (`ilog` of zero): as written only `log_dword` rejects a zero target; the power-of-two
     shortcuts underflow and a multi-word base returns 0 -/
 theorem ilog_zero_asIs_counterexample :
     logRepr 64 false (fun _ _ => 1) 0 2 ≠ .error .logInvalid ∧
@@ -209,7 +213,7 @@ theorem ilog_zero_asIs_counterexample :
     logRepr 64 true (fun _ _ => 1) 0 (2 ^ 130 + 1) = .error .logInvalid := by
   decide +kernel
 
-/-- FINDING (`gcd_ext_large` post-processing): for `(2^320, 2^128)` the residue `g − rhs·b` has fewer
+/-- REGRESSION (`gcd_ext_large` post-processing): for `(2^320, 2^128)` the residue `g − rhs·b` has fewer
     words than `lhs`, which violates the precondition of the division the code calls -/
 theorem gcd_ext_post_precondition_counterexample :
     gcdExtPostPre 64 (2 ^ 320) (2 ^ 128) (lehmerExtFrontier (2 ^ 320) (2 ^ 128)) = false ∧
